@@ -634,6 +634,12 @@ func exprsOf(e *Ev) []namedExpr {
 		add('s', "loc3", "LOCATE(%s, %s, %d)", U, S, m)
 		add('s', "at3", "SUBSTRING(%s, LOCATE(%s, %s, %d), CHAR_LENGTH(%s))", S, U, S, m, U)
 		add('s', "ins", "INSERT(%s, %d, %d, %s)", S, m, n, T)
+		// a count beyond every string length saturates: the literal is one of the classic overflow edges
+		huge := []string{"2147483647", "2147483648", "4294967296", "9223372036854775807"}[(n+m)%4]
+		add('s', "left_h", "LEFT(%s, %s)", S, huge)
+		add('s', "right_h", "RIGHT(%s, %s)", S, huge)
+		add('s', "sub3_h", "SUBSTRING(%s, %d, %s)", S, m, huge)
+		add('s', "ins_h", "INSERT(%s, %d, %s, %s)", S, m, huge, T)
 		add('s', "insl", "LEFT(%s, %d)", S, m-1)
 		add('s', "insr", "SUBSTRING(%s, %d)", S, m+n)
 		add('s', "lpad", "LPAD(%s, %d, %s)", S, n, U)
